@@ -81,6 +81,7 @@ func rootLocal(f *eng.Fn, e ast.Expr) *types.Var {
 
 func runC01(p *eng.Prog, r *eng.Report, tier string) {
 	c := &cx{p, r, tier}
+	negotiatorMaskFromFeatures(c, "C01.23")
 	callerSlicesNotRewritten(c, "C01.16", negSet(c, "C01.16"))
 	depthCountersDoNotWrap(c, "C01.20")
 	// C01.21 "a restart always begins with a fresh stream header": what Expect
@@ -226,6 +227,15 @@ func c01NegotiateFeatures(c *cx, nf *eng.Fn, call *ast.CallExpr) (firstParam str
 					c.dom("C01.4", nf, d.Node, "forced STARTTLS selection [negotiable]", []string{"!eq(" + fn + ".Negotiate,nil)"}, initRole)
 					c.dom("C01.4", nf, d.Node, "forced STARTTLS selection [prerequisites hold now]", []string{"all(*.state," + fn + ".Necessary)", "none(*.state," + fn + ".Prohibited)"}, initRole)
 				}
+				// ... and to nothing else: the attempt is the protection against a
+				// peer (or a man in the middle) that leaves STARTTLS out of its
+				// list. One more precondition - the framing, a version, a
+				// configuration flag - is a way to switch it off (C02.19).
+				c.onlyFacts("C01.4", nf, d.Node, "forced STARTTLS selection [no other precondition]", []string{
+					"!commaok(*.cache[internal/ns.StartTLS])", "xmpp.containsStartTLS(*)#1", "eq(*.Name.Space,internal/ns.StartTLS)",
+					"!all(*,xmpp.Secure)", "!eq(*.Negotiate,nil)", "all(*.state,*.Necessary)", "none(*.state,*.Prohibited)",
+					"!all(*.state,xmpp.Received)", "!all(xmpp.Session.State[*](),xmpp.Received)", "eq(*#1,nil)", "eq(*,nil)", "istype(*)", "commaok(*Token[*]()#0.(encoding/xml.StartElement))", firstParam,
+				}, initRole)
 				forcedAtoms = append([]string{}, pats[:2]...)
 				forcedAtoms = append(forcedAtoms, sec...)
 				forcedAtoms = append(forcedAtoms, params...)
